@@ -158,15 +158,16 @@ package dnsmsg
 //@   requires 0 <= off && off <= len(msg)
 //@   modifies msg[off:len(msg)], obj(compression)
 //@   ensures off <= noff && noff <= len(msg)
-//@   ensures err == nil ==> off < noff
-//@   ensures [C02:uncompressed] err == nil && compression == nil && !sameObj(n, msg) ==>
-//@             noff == off+len(n)+1 && len(n) <= 254 && bytesEq(msg, off, n, 0, len(n)) && msg[off+len(n)] == 0
+//@   ensures err == nil ==> off < noff && noff - off <= len(n) + 1 && len(n) <= 254
+//@   ensures [C02:uncompressed] err == nil && compression == nil ==> noff == off+len(n)+1
+//@   ensures [C02:uncompressed-bytes] err == nil && compression == nil && !sameObj(n, msg) ==>
+//@             bytesEq(msg, off, n, 0, len(n)) && msg[off+len(n)] == 0
 //@   loop 1:
 //@     modifies msg[off0:len(msg)], obj(compression), scanner.label, scanner.labelOff, scanner.off, scanner.err
 //@     invariant sameSlice(scanner.n, n, 0, len(n)) && 0 <= scanner.off && scanner.off <= len(n) && scanner.err == nil
 //@     invariant off0 <= off && off <= len(msg)
 //@     invariant len(unsafeStr) == 0 || len(unsafeStr) == len(n)
-//@     invariant compression == nil ==> off == off0 + scanner.off
+//@     invariant off == off0 + scanner.off
 //@     invariant compression == nil && !sameObj(n, msg) ==> bytesEq(msg, off0, n, 0, scanner.off)
 //@     decreases len(n) - scanner.off
 
@@ -460,3 +461,83 @@ package dnsmsg
 //@             && m.RCode == RCode(BE16(msg, 2) & 0xF) && m.OpCode == OpCode(BE16(msg, 2) >> 11) & 0xF
 //@   ensures [C02:counts] err == nil ==> len(m.Questions) == int(BE16(msg, 4)) && len(m.Answers) == int(BE16(msg, 6))
 //@             && len(m.Authorities) == int(BE16(msg, 8)) && len(m.Additionals) == int(BE16(msg, 10))
+
+// ---- rr.go: encoding -----------------------------------------------------------------------
+
+//@ spec func nameLen(n Name) int = (len(n) > 254 ? 254 : len(n)) + 1
+
+//@ func (h *ResourceHdr) pack(msg []byte, off int, compression map[string]uint16, dataLen uint16) (noff int, err error)
+//@   props C01 C02 C09
+//@   requires h != nil && 0 <= off && off <= len(msg)
+//@   modifies msg[off:len(msg)], obj(compression)
+//@   ensures off <= noff && noff <= len(msg)
+//@   ensures err == nil ==> off + 11 <= noff && noff - off <= len(h.Name) + 11 && len(h.Name) <= 254
+//@   ensures [C02:uncompressed] err == nil && compression == nil ==> noff == off+len(h.Name)+11
+//@   ensures [C02:uncompressed-bytes] err == nil && compression == nil && !sameObj(h.Name, msg) ==>
+//@             bytesEq(msg, off, h.Name, 0, len(h.Name)) && msg[off+len(h.Name)] == 0
+//@   ensures [C02:fixed-part] err == nil ==> BE16(msg, noff-10) == uint16(h.Type) && BE16(msg, noff-8) == uint16(h.Class)
+//@             && BE32(msg, noff-6) == h.TTL && BE16(msg, noff-2) == dataLen
+
+//@ func (r *A) pack(msg []byte, off int, compression map[string]uint16) (noff int, err error)
+//@   props C01 C02 C09
+//@   requires r != nil && 0 <= off && off <= len(msg)
+//@   modifies msg[off:len(msg)], obj(compression)
+//@   ensures err == nil ==> off < noff && noff <= len(msg) && noff - off <= nameLen(r.Name) + 14
+//@   ensures [C02:uncompressed] err == nil && compression == nil ==> noff == off + nameLen(r.Name) + 14
+//@   ensures [C02:rdata] err == nil && !sameObj(r.A[:], msg) ==> BE16(msg, noff-6) == 4 && forall(k, 0, 4, msg[noff-4+k] == old(r.A[k]))
+
+//@ func (r *AAAA) pack(msg []byte, off int, compression map[string]uint16) (noff int, err error)
+//@   props C01 C02 C09
+//@   requires r != nil && 0 <= off && off <= len(msg)
+//@   modifies msg[off:len(msg)], obj(compression)
+//@   ensures err == nil ==> off < noff && noff <= len(msg) && noff - off <= nameLen(r.Name) + 26
+//@   ensures [C02:uncompressed] err == nil && compression == nil ==> noff == off + nameLen(r.Name) + 26
+//@   ensures [C02:rdata] err == nil && !sameObj(r.AAAA[:], msg) ==> BE16(msg, noff-18) == 16 && forall(k, 0, 16, msg[noff-16+k] == old(r.AAAA[k]))
+
+//@ func (r *NAMEResource) pack(msg []byte, off int, compression map[string]uint16) (noff int, err error)
+//@   props C01 C02 C09
+//@   requires r != nil && 0 <= off && off <= len(msg)
+//@   modifies msg[off:len(msg)], obj(compression)
+//@   ensures err == nil ==> off < noff && noff <= len(msg) && noff - off <= nameLen(r.Name) + 10 + nameLen(r.NameData)
+//@   ensures [C02:uncompressed] err == nil && compression == nil ==> noff == off + nameLen(r.Name) + 10 + nameLen(r.NameData)
+//@   ensures [C02:rdlength] err == nil && compression == nil ==> BE16(msg, off+len(r.Name)+9) == uint16(len(r.NameData)+1)
+
+//@ func (r *SOA) pack(msg []byte, off int, compression map[string]uint16) (noff int, err error)
+//@   props C01 C02 C09
+//@   requires r != nil && 0 <= off && off <= len(msg)
+//@   modifies msg[off:len(msg)], obj(compression)
+//@   ensures err == nil ==> off < noff && noff <= len(msg) && noff - off <= nameLen(r.Name) + 10 + nameLen(r.NS) + nameLen(r.MBox) + 20
+//@   ensures [C02:uncompressed] err == nil && compression == nil ==> noff == off + nameLen(r.Name) + 10 + nameLen(r.NS) + nameLen(r.MBox) + 20
+//@   ensures [C02:rdata] err == nil ==> BE32(msg, noff-20) == r.Serial && BE32(msg, noff-16) == r.Refresh && BE32(msg, noff-12) == r.Retry
+//@             && BE32(msg, noff-8) == r.Expire && BE32(msg, noff-4) == r.MinTTL
+//@   ensures [C02:rdlength-lemma] err == nil && compression == nil ==> noff - (off+len(r.Name)+11) == len(r.NS)+len(r.MBox)+22
+//@   ensures [C02:rdlength] err == nil && compression == nil ==> BE16(msg, off+len(r.Name)+9) == uint16(len(r.NS)+len(r.MBox)+22)
+
+//@ func (r *MX) pack(msg []byte, off int, compression map[string]uint16) (noff int, err error)
+//@   props C01 C02 C09
+//@   requires r != nil && 0 <= off && off <= len(msg)
+//@   modifies msg[off:len(msg)], obj(compression)
+//@   ensures err == nil ==> off < noff && noff <= len(msg) && noff - off <= nameLen(r.Name) + 12 + nameLen(r.MX)
+//@   ensures [C02:uncompressed] err == nil && compression == nil ==> noff == off + nameLen(r.Name) + 12 + nameLen(r.MX)
+//@   ensures [C02:rdlength-lemma] err == nil && compression == nil ==> noff - (off+len(r.Name)+11) == len(r.MX)+3
+//@   ensures [C02:rdlength] err == nil && compression == nil ==> BE16(msg, off+len(r.Name)+9) == uint16(len(r.MX)+3) && BE16(msg, off+len(r.Name)+11) == r.Pref
+
+//@ func (r *SRV) pack(msg []byte, off int, compression map[string]uint16) (noff int, err error)
+//@   props C01 C02 C09
+//@   requires r != nil && 0 <= off && off <= len(msg)
+//@   modifies msg[off:len(msg)], obj(compression)
+//@   ensures err == nil ==> off < noff && noff <= len(msg) && noff - off <= nameLen(r.Name) + 16 + nameLen(r.Target)
+//@   ensures [C02:uncompressed] err == nil && compression == nil ==> noff == off + nameLen(r.Name) + 16 + nameLen(r.Target)
+//@   ensures [C02:rdlength-lemma] err == nil && compression == nil ==> noff - (off+len(r.Name)+11) == len(r.Target)+7
+//@   ensures [C02:rdlength] err == nil && compression == nil ==> BE16(msg, off+len(r.Name)+9) == uint16(len(r.Target)+7)
+//@             && BE16(msg, off+len(r.Name)+11) == r.Priority && BE16(msg, off+len(r.Name)+13) == r.Weight && BE16(msg, off+len(r.Name)+15) == r.Port
+
+//@ func (rr *RawResource) pack(msg []byte, off int, compression map[string]uint16) (noff int, err error)
+//@   props C01 C02 C09
+//@   requires rr != nil && 0 <= off && off <= len(msg)
+//@   modifies msg[off:len(msg)], obj(compression)
+//@   ensures err == nil ==> off < noff && noff <= len(msg) && len(rr.Data) <= 65535 && noff - off <= nameLen(rr.Name) + 10 + len(rr.Data)
+//@   ensures [C02:uncompressed] err == nil && compression == nil ==> noff == off + nameLen(rr.Name) + 10 + len(rr.Data)
+//@   ensures [C02:rdata] err == nil && !sameObj(rr.Name, msg) && !sameObj(rr.Data, msg) ==>
+//@             BE16(msg, noff-len(rr.Data)-2) == uint16(len(rr.Data)) && bytesEq(msg, noff-len(rr.Data), rr.Data, 0, len(rr.Data))
+//@             && BE16(msg, noff-len(rr.Data)-10) == uint16(rr.Type) && BE16(msg, noff-len(rr.Data)-8) == uint16(rr.Class) && BE32(msg, noff-len(rr.Data)-6) == rr.TTL
